@@ -211,6 +211,8 @@ def run(ctx: core.Ctx):
             ctx.case(("mk_p_value", sign * zz))
             if bool(hz) != (pz < 0.05) or bool(hz) != (zz > ZCRIT):
                 ctx.fail("mk_p_value", dict(z=sign * zz), dict(p=float(pz), h=int(hz)), dict(h=int(zz > ZCRIT)), note="h = 1 exactly when the returned p is below 0.05")
+    from .. import strided
+    strided.probe(ctx, "a non-contiguous view of an argument gives exactly the result of its contiguous copy (the kernel reads the cells it was given)", only=['_mann_kendall_trend_gu', '_mann_kendall_trend_gu_nd'])
     # all-nodata pixel
     for dt in ("int16", "float32"):
         r = stats._mann_kendall_trend_gu_nd(np.full(7, -9999, dtype=dt), -9999.0)
